@@ -52,8 +52,11 @@ pub struct FaultPlan {
     pub target: String,
     /// First write reaching this byte offset of the target is cut there; later writes fail.
     pub write_fail_at_offset: Option<u64>,
-    /// The n-th (0-based) write call on the target fails (sticky afterwards).
+    /// The n-th (0-based) write call on the target fails (sticky afterwards, unless
+    /// `write_fail_transient`).
     pub write_fail_at_call: Option<u64>,
+    /// A failing write call fails once; later calls succeed (transient EIO / space freed).
+    pub write_fail_transient: bool,
     /// The n-th (0-based) flush call on the target fails.
     pub flush_fail_at_call: Option<u64>,
     /// raw OS error used for the hard write/flush faults (28 ENOSPC, 27 EFBIG, 5 EIO).
@@ -473,7 +476,7 @@ impl Write for File {
                     return D::Fail(w.faults.write_errno);
                 }
                 if w.faults.write_fail_at_call == Some(call) {
-                    w.faults.write_failed = true;
+                    w.faults.write_failed = !w.faults.write_fail_transient;
                     fired(w, "eio_write_call");
                     return D::Fail(w.faults.write_errno);
                 }
